@@ -98,6 +98,7 @@ static void child_main(Engine * eng, const Json & plan, bool verbose, int wfd, i
 	g_log = EventLog();
 	g_steps = 0;
 	g_step_cap = (uint64_t)plan.geti("step_cap", 0);
+	if (!g_step_cap) g_step_cap = eng->default_step_cap();
 	g_sim.active = true;
 	ExecArgs x{eng, &plan, verbose, Json()};
 	// run on a thread with a large stack, so that ASan's enlarged frames cannot turn deep
